@@ -16,16 +16,18 @@ def u8Arg (s : String) : Option UInt8 :=
     byte.) -/
 def ksOfArray (a : Array UInt8) (i : Nat) : UInt8 := a.getD i 0
 
-def ksArg (s : String) : Option (Nat → UInt8) := (hexArg s).map (fun b => ksOfArray b.toArray)
+/-- The key-stream bytes of an op line. Kept as data (not as a closure) so that the list→array
+    conversion is evaluated once. -/
+def ksArg (s : String) : Option (Array UInt8) := (hexArg s).map List.toArray
 
-def cipherOfTable (tbl : Array (Nat × Array UInt8)) (off : Nat) : Nat → UInt8 :=
+def cipherOfTable (tbl : Array (Nat × Array UInt8)) (off : Nat) (i : Nat) : UInt8 :=
   match tbl.find? (fun x => x.1 == off) with
-  | some (_, a) => ksOfArray a
-  | none => noKs
+  | some (_, a) => a.getD i 0
+  | none => 0
 
 /-- `off:hex,off:hex,...` (or `-`): key stream per record offset. -/
-def cipherArg (s : String) : Option (Nat → Nat → UInt8) :=
-  if s == "-" then some (fun _ => noKs) else
+def cipherArg (s : String) : Option (Array (Nat × Array UInt8)) :=
+  if s == "-" then some #[] else
   let parts := s.splitOn ","
   let parsed : Option (List (Nat × Array UInt8)) := parts.mapM fun p =>
     match p.splitOn ":" with
@@ -33,7 +35,7 @@ def cipherArg (s : String) : Option (Nat → Nat → UInt8) :=
       | some o, some b => some (o, b.toArray)
       | _, _ => none
     | _ => none
-  parsed.map fun tbl => cipherOfTable tbl.toArray
+  parsed.map List.toArray
 
 def entryStr (e : Entry) : String :=
   s!"{e.metaB.toNat} {e.userMeta.toNat} {e.expiresAt} {toHex e.key} {toHex e.value}"
@@ -130,33 +132,33 @@ def logStep (line : String) : String :=
   | ["entenc", m, um, ex, k, v, _, _, _, ks] =>
     match u8Arg m, u8Arg um, natArg ex, hexArg k, hexArg v, ksArg ks with
     | some m, some um, some ex, some k, some v, some ks =>
-      toHex (encodeEntry ks { key := k, value := v, expiresAt := ex, metaB := m, userMeta := um })
+      toHex (encodeEntry (ksOfArray ks) { key := k, value := v, expiresAt := ex, metaB := m, userMeta := um })
     | _, _, _, _, _, _ => "bad-op"
   | ["entdec", b, _, _, _, ks] =>
     match hexArg b, ksArg ks with
     | some b, some ks =>
-      match decodeEntry ks b with
+      match decodeEntry (ksOfArray ks) b with
       | some e => entryStr e
       | none => "panic"
     | _, _ => "bad-op"
   | ["sread", b, _, _, _, ks] =>
     match hexArg b, ksArg ks with
     | some b, some ks =>
-      match safeReadEntry ks b with
+      match safeReadEntry (ksOfArray ks) b with
       | .ok (e, hlen) => s!"ok {entryStr e} {hlen}"
       | .error e => e.str
     | _, _ => "bad-op"
   | ["iter", fid, b, _, _, c] =>
     match natArg fid, hexArg b, cipherArg c with
-    | some fid, some b, some c => iterStr (iterate fid c b)
+    | some fid, some b, some c => iterStr (iterate fid (cipherOfTable c) b)
     | _, _, _ => "bad-op"
   | op :: fid :: _ :: _ :: c :: cut :: fill :: recs =>
     if op == "wal" || op == "walx" then
       match natArg fid, cipherArg c, natArg cut, natArg fill, recs.mapM recArg with
       | some fid, some c, some cut, some fill, some es =>
-        let full := encodeAll c vlogHeaderSize es
+        let full := encodeAll (cipherOfTable c) vlogHeaderSize es
         let content := full.take cut ++ List.replicate fill 0
-        s!"{iterStr (iterate fid c content)} len={full.length} crc={crc32c content}"
+        s!"{iterStr (iterate fid (cipherOfTable c) content)} len={full.length} crc={crc32c content}"
       | _, _, _, _, _ => "bad-op"
     else "bad-op"
   | _ => "bad-op"
